@@ -19,7 +19,7 @@ Definition rnd_fun (l : list (N * bytes)) : N -> bytes :=
 Definition resp_status (r : response) : N :=
   match r with
   | RClosed => 503 | RErr _ => 400 | RForbidden => 403 | RInternal => 500
-  | ROpen _ Polling => 200 | ROpen _ Websocket => 101 | ROverlap _ => 200
+  | ROpen _ Polling => 200 | ROpen _ Websocket => 101 | ROverlap _ => 200 | ROpenVia _ _ => 200
   | RPoll => 200 | RData => 200 | REmpty200 => 200 | RUpgrade => 101
   | RLib s => s | RPlain400 => 400
   end%N.
@@ -28,7 +28,7 @@ Definition resp_sid (r : response) : bytes :=
   match r with ROpen sid _ => sid | ROverlap sid => sid | _ => [] end.
 Definition resp_body (r : response) : N :=
   match r with
-  | RErr _ => 1 | ROpen _ _ | ROverlap _ => 2 | RData => 3 | RPoll => 4 | RLib _ => 5 | _ => 0
+  | RErr _ => 1 | ROpen _ _ | ROverlap _ => 2 | RData | ROpenVia _ POST => 3 | RPoll => 4 | RLib _ => 5 | _ => 0
   end%N.
 
 Definition opt_eqb (a b : option N) : bool :=
@@ -147,3 +147,9 @@ Definition oracle_race (c : rcase) : bool :=
   && N.eqb onclose (live + onsocket)               (* ... each exactly once, the late comer included *)
   && N.leb onsocket (count_true (map (fun st => negb (N.eqb st 503)) statuses))
   && N.eqb after 503.                              (* and nothing is admitted afterwards *)
+
+(* ------------------------------------------------------------------ known finding class *)
+(** key http3-skips-version-and-method-checks: the request arrived with r.ProtoMajor = 3 (the
+    negation of the side condition of C17_invalid_is_error_and_pure_partial) *)
+Definition finding_http3 (c : mcase) : bool :=
+  let '(_, rq, _, _, _, _) := c in is_p3 (r_proto rq).
